@@ -41,8 +41,37 @@ type c16Case struct {
 // the singleton value elliptic.P256() etc.
 type wrappedCurve struct{ elliptic.Curve }
 
+// secp160r1 (SEC 2): a = -3, the order is one byte LONGER than the field prime (161 vs 160 bits) - the width
+// of r and s follows the order. Used on the signing side only (crypto/ecdh, hence NewVerifier, knows the NIST
+// curves only).
+var secp160r1 = func() *elliptic.CurveParams {
+	h := func(s string) *big.Int { v, _ := new(big.Int).SetString(s, 16); return v }
+	c := &elliptic.CurveParams{Name: "secp160r1", BitSize: 160,
+		P:  h("ffffffffffffffffffffffffffffffff7fffffff"),
+		N:  h("0100000000000000000001f4c8f927aed3ca752257"),
+		B:  h("1c97befc54bd7a8b65acf89f81d4d4adc565fa45"),
+		Gx: h("4a96b5688ef573284664698968c38bb913cbfc82"),
+		Gy: h("23a628553168947d59dcc912042351377ac5fb32")}
+	if !c.IsOnCurve(c.Gx, c.Gy) {
+		panic("secp160r1: generator not on curve")
+	}
+	nm1 := new(big.Int).Sub(c.N, big.NewInt(1))
+	x, y := c.ScalarMult(c.Gx, c.Gy, nm1.Bytes())
+	if x.Cmp(c.Gx) != 0 || new(big.Int).Add(y, c.Gy).Cmp(c.P) != 0 {
+		panic("secp160r1: (n-1)G is not -G")
+	}
+	return c
+}()
+
+func c16Curve(n int) elliptic.Curve {
+	if n == 160 {
+		return secp160r1
+	}
+	return curveOf(n)
+}
+
 func c16Key(c *c16Case) *ecdsa.PrivateKey {
-	curve := curveOf(c.Curve)
+	curve := c16Curve(c.Curve)
 	d := new(big.Int).SetBytes(c.D)
 	n1 := new(big.Int).Sub(curve.Params().N, big.NewInt(1))
 	d.Mod(d, n1)
@@ -119,6 +148,9 @@ func checkC16(c c16Case) error {
 		}
 		if c.Wrapped {
 			stats.Class("stub/wrapped-curve-value")
+		}
+		if c.Curve == 160 {
+			stats.Class("stub/order-wider-than-field")
 		}
 		if len(der) == 2*n {
 			stats.Class("stub/asn1-length-equals-fixed-width")
@@ -421,8 +453,12 @@ func genC16Case(t *rapid.T) c16Case {
 	if rapid.IntRange(0, 5).Draw(t, "cross-alg") == 0 {
 		c.Alg = rapid.SampledFrom([]int64{refcose.AlgES256, refcose.AlgES384, refcose.AlgES512}).Draw(t, "alg")
 	}
-	order := curveOf(c.Curve).Params().N
-	if c.Mode != "verify-forms" {
+	if c.Mode == "stub-sign" && rapid.IntRange(0, 7).Draw(t, "odd-curve") == 0 {
+		// a curve whose order is wider than its field (an opaque key on such a curve: signing only)
+		c.Curve = 160
+	}
+	order := c16Curve(c.Curve).Params().N
+	if c.Mode != "verify-forms" && c.Curve != 160 {
 		c.Wrapped = rapid.IntRange(0, 3).Draw(t, "wrapped") == 0
 	}
 	switch c.Mode {
